@@ -979,6 +979,10 @@ func checkC07(ck *Check) {
 	// R10 … and the loop is offered all of them: the tainted list handed to ScaleUp is the classifier's
 	// whole result, not a filtered copy (decided as C01.R5 / C09.R2)
 	ck.scaleOptsBinding("C07.R10")
+	// R12 the remainder is always asked for: ScaleUp skips the cloud step when the untaint step
+	// reports an error, so that step reports none — a write that failed is a node not reused (R2
+	// subtracts only the successes), not a reason to buy nothing
+	ck.untaintNeverFails("C07.R12")
 	// R11 a node counted as reused has lost the escalator taint: the untaint searches the fetched
 	// node's own taint list and removes the element it found there (decided as C15.R4 / R5)
 	ck.shareRules(checkC15, "C07.R11", "C15.R4", "C15.R5")
@@ -1113,4 +1117,30 @@ func (ck *Check) starvePredicate(rule string) {
 		okOpt, _, _ = Entails(got, And(opt, room))
 	}
 	ck.cond(okOpt, rule, "starve/enabled", ck.P.position(fn.Pos()), funcID(fn), "starve ⇒ scale_on_starve ∧ untainted < max_nodes", "", "the trigger ignores the option or the maximum")
+}
+
+// untaintNeverFails (C07.R12 / C03.R8): every return of the untaint step (what ScaleUp calls before
+// the cloud step) yields the nil constant as its error, or the error of a repo function of that kind
+// — when the step has an error result at all.
+func (ck *Check) untaintNeverFails(rule string) {
+	a := ck.A
+	fn := a.UntaintStep
+	if fn == nil {
+		ck.lost(rule, "untaint step", "not resolved")
+		return
+	}
+	res := fn.Signature.Results()
+	idx := -1
+	for i := 0; i < res.Len(); i++ {
+		if isErrorType(res.At(i).Type()) {
+			idx = i
+		}
+	}
+	if idx < 0 {
+		ck.ok(rule, funcID(fn)+"/no-error", ck.P.position(fn.Pos()), funcID(fn), "the untaint step cannot stop the cloud request", "no error result")
+		return
+	}
+	// only a condition when ScaleUp leaves before the cloud step on that error
+	ck.cond(ck.benignErrorOf(fn, idx, 0), rule, funcID(fn)+"/no-error", ck.P.position(fn.Pos()), funcID(fn), "the untaint step reports no error of its own (failed writes are nodes not reused, the remainder is still requested)", "",
+		"ScaleUp returns before the cloud step when the untaint step fails: with one tainted node that cannot be written, N − untainted nodes are never requested")
 }
